@@ -1,4 +1,5 @@
 import CbiVerif.PP.Define
+import CbiVerif.PP.CharConst
 /-! Model of ExpressionEvaluator (with the drafted repairs D2–D5, D7 applied). -/
 namespace CbiVerif.PP
 
@@ -179,9 +180,10 @@ partial def evalTerm (ts : List Tok) : Except Err (Val × List Tok) :=
       | .ok v => .ok (v, rest)
       | .error e => .error e
     else if t.kind == .chr then
-      match t.text.toList with
-      | [c] => .ok (⟨false, c.toNat⟩, rest)
-      | _ => .error .type_
+      match characterValue t.text.toList with
+      | .ok n => .ok (⟨false, n⟩, rest)
+      | .error .type_ => .error .type_
+      | .error .value => .error (.other "ValueError")
     else if t.kind == .ident then
       -- call(): identifier '(' expression-list ')'  → 0 ; else identifier → 0
       match rest with
